@@ -776,7 +776,13 @@ class Inliner(object):
         """Statements replacing a call to callee (cond: (pre, body) for a
         call in condition position; returns stay ``return`` statements
         marked ``_inline_cond_ret``)."""
-        raw = raw or callee.raw
+        if raw is None:
+            # the helper in the same normal form as a routine viewed on its
+            # own (named booleans read back into the tests they feed)
+            key = id(callee.raw)
+            if key not in _FOLDED_RAW:
+                _FOLDED_RAW[key] = fold_test_flags(copy.deepcopy(callee.raw))
+            raw = _FOLDED_RAW[key]
         self.counter += 1
         tag = '%s__%d' % (callee.name.strip('_'), self.counter)
         params = [a.arg for a in raw.args.posonlyargs + raw.args.args]
@@ -1861,6 +1867,9 @@ def fold_lookup_default(fdef):
         return out
     fdef.body = rewrite(fdef.body)
     return fdef
+
+
+_FOLDED_RAW = {}
 
 
 def fold_test_flags(fdef):
